@@ -23,10 +23,13 @@ def f_ok(v):
     import builtins
     builtins._vh_count = getattr(builtins, "_vh_count", 0) + 1
     return v
-def f_raise(v):
+class NotAnError(BaseException):
+    pass
+def f_raise(v, cls="ValueError"):
     import builtins
     builtins._vh_count = getattr(builtins, "_vh_count", 0) + 1
-    raise ValueError(v)
+    # exceptions outside the Exception branch too (sys.exit() in a submitted function, KeyboardInterrupt, user BaseException)
+    raise {"ValueError": ValueError, "SystemExit": SystemExit, "KeyboardInterrupt": KeyboardInterrupt, "NotAnError": NotAnError}[cls](v)
 def f_preset(k):
     import builtins
     builtins._vh_count = getattr(builtins, "_vh_count", 0) + 1
@@ -72,6 +75,8 @@ def gen_seq(rng, with_counter=False):
             seq.append({"t": "ok", "v": 1000 + i})
         elif k == "raise":
             seq.append({"t": "raise", "v": 2000 + i})
+            if rng.random() < 0.3:
+                seq[-1]["cls"] = rng.choice(["SystemExit", "KeyboardInterrupt", "NotAnError"])
         elif k == "preset":
             seq.append({"t": "preset", "key": "k"})
         elif k == "counter":
@@ -94,7 +99,7 @@ def to_wire(req, g):
     if t == "ok":
         return {"fn": g["f_ok"], "args": (req["v"],), "kwargs": {}}
     if t == "raise":
-        return {"fn": g["f_raise"], "args": (), "kwargs": {"v": req["v"]}}
+        return {"fn": g["f_raise"], "args": (), "kwargs": dict({"v": req["v"]}, **({"cls": req["cls"]} if req.get("cls") else {}))}
     if t == "preset":
         return {"fn": g["f_preset"], "args": (), "kwargs": {}}
     if t == "counter":
@@ -117,6 +122,8 @@ def canon_reply(d):
     e = d.get("error")
     if isinstance(e, ValueError) and len(e.args) == 1 and d.get("error_type") == "<class 'ValueError'>":
         return {"error": e.args[0]}
+    if type(e).__name__ in ("SystemExit", "KeyboardInterrupt", "NotAnError") and len(e.args) == 1 and type(e).__name__ in str(d.get("error_type")):
+        return {"error": e.args[0], "cls": type(e).__name__}
     if isinstance(e, TypeError) and d.get("error_type") == "<class 'TypeError'>":
         return {"error": "TypeError"}
     return {"error": [d.get("error_type"), repr(e)]}
@@ -134,7 +141,10 @@ def expected_of(model_replies, seq):
         raise InfraError("model reply count contradicts theorem reply_count")
     out = []
     for i, rep in zip(idx, model_replies):
-        out.append([i, {"result": True} if "ack" in rep else rep])
+        rep = {"result": True} if "ack" in rep else rep
+        if seq[i].get("cls") and "error" in rep:
+            rep = dict(rep, cls=seq[i]["cls"])
+        out.append([i, rep])
     return out
 
 
